@@ -546,9 +546,13 @@ def _extract_item(unit, out, repo, rel, sel, subs, trel, vacuity, assume_mode=Fa
     out.append((cur_line_txt, cur_origin or ("spec", trel, 0, label)))
 
     if item.kind == "fn":
+        from . import rustlex as _rl
+        # executable text copied from the repository only (contract payloads and rewritten spans are template text)
+        ctot, cun = _rl.count_closures(" ; ".join(txt for txt, _k, _r in segs if _k == "repo"))
         unit.functions.append({"name": label, "file": rel, "line": sf.line_of(item.start),
                                "has_spec": has_spec, "external_body": external,
-                               "loops_annotated": sum(1 for s in subs if s[0] == "loop")})
+                               "loops_annotated": sum(1 for s in subs if s[0] == "loop"),
+                               "closures": ctot, "closures_unannotated": cun})
 
 
 def _lint_ghost(unit, pl, trel, tl):
